@@ -16,7 +16,8 @@ for d in sorted(glob.glob("/verif/seeded/*")):
         if subprocess.run(["git", "apply", d + "/patch.diff"], cwd="/repo").returncode != 0:
             res[c] = dict(applies=False); continue
         try:
-            p = subprocess.run(["./check", c, "quick"], cwd="/verif", capture_output=True, text=True)
+            p = subprocess.run(["./check", c, "quick"], cwd="/verif", capture_output=True, text=True,
+                               env=dict(os.environ, VF_EVIDENCE_DIR="/tmp/vf_evidence_seeded"))       # evidence/ is only written by runs on the unchanged tree
         finally:
             subprocess.run("git checkout -- .", shell=True, cwd="/repo")
         v = [l for l in p.stdout.splitlines() if l.startswith("VIOLATION")]
